@@ -77,10 +77,21 @@ theorem digitChar_facts : ∀ d, d < 16 →
       isAsciiAlphabetic (Nat.digitChar d).toUpper = false) := by
   decide
 
+/-- the characters `cs` write, one for one, the digits `ds` -/
+inductive Digits (r : Nat) : List Char → List Nat → Prop
+  | nil : Digits r [] []
+  | cons {c d cs ds} : DigitChar r c d → Digits r cs ds → Digits r (c :: cs) (d :: ds)
+
+theorem Digits.append {r : Nat} {a b : List Char} {x y : List Nat} (h1 : Digits r a x)
+    (h2 : Digits r b y) : Digits r (a ++ b) (x ++ y) := by
+  induction h1 with
+  | nil => exact h2
+  | cons hc _ ih => exact .cons hc ih
+
 /-! ### the digit fold -/
 
 theorem foldDigits_exact {r : Nat} (hr : r ≤ 16) (hr0 : 0 < r) :
-    ∀ (cs : List Char) (ds : List Nat) (acc : Nat), List.Forall₂ (DigitChar r) cs ds →
+    ∀ (cs : List Char) (ds : List Nat) (acc : Nat), Digits r cs ds →
       ofDigitsAcc r acc ds < u128Bound → foldDigits r acc cs = some (ofDigitsAcc r acc ds) := by
   intro cs ds acc h
   induction h generalizing acc with
@@ -88,12 +99,12 @@ theorem foldDigits_exact {r : Nat} (hr : r ≤ 16) (hr0 : 0 < r) :
   | cons hc _ ih =>
     intro hlt
     simp only [foldDigits, toDigit_of_digitChar hr hc, ofDigitsAcc] at hlt ⊢
-    have := le_ofDigitsAcc r _ hr0 _ |>.trans_lt hlt
+    have := Nat.lt_of_le_of_lt (le_ofDigitsAcc r _ hr0 _) hlt
     rw [if_pos this]
     exact ih _ hlt
 
 theorem foldDigits_overflow {r : Nat} (hr : r ≤ 16) :
-    ∀ (cs : List Char) (ds : List Nat) (acc : Nat), List.Forall₂ (DigitChar r) cs ds →
+    ∀ (cs : List Char) (ds : List Nat) (acc : Nat), Digits r cs ds →
       acc < u128Bound → u128Bound ≤ ofDigitsAcc r acc ds → foldDigits r acc cs = none := by
   intro cs ds acc h
   induction h generalizing acc with
@@ -118,13 +129,13 @@ def prefixes : Radix → List (List Char)
 either letter case with underscores inserted anywhere (before, between, after, doubled) -/
 def Spelling (r : Radix) (ds : List Nat) (text : List Char) : Prop :=
   ∃ pre body, pre ∈ prefixes r ∧ text = pre ++ body ∧
-    List.Forall₂ (DigitChar r.toNat) (body.filter (· ≠ '_')) ds
+    Digits r.toNat (body.filter (· ≠ '_')) ds
 
 theorem radix_toNat_le (r : Radix) : r.toNat ≤ 16 ∧ 0 < r.toNat := by cases r <;> decide
 
 /-- characters of a spelling's body -/
 theorem body_chars {r : Radix} {body : List Char} {ds : List Nat}
-    (h : List.Forall₂ (DigitChar r.toNat) (body.filter (· ≠ '_')) ds) :
+    (h : Digits r.toNat (body.filter (· ≠ '_')) ds) :
     ∀ c ∈ body, c = '_' ∨ ∃ d, DigitChar r.toNat c d := by
   intro c hc
   by_cases hu : c = '_'
@@ -187,17 +198,16 @@ theorem radix_decimal_body {body : List Char}
         · exact h
         · rw [e]; exact h
       exact this d hd c hc
-  match body, h with
-  | [], _ => rfl
-  | [_], _ => by unfold radix; split <;> simp_all
-  | a :: b :: rest, h =>
-    have hb := key b (h b (by simp))
+  rcases body with _ | ⟨a, _ | ⟨b, rest⟩⟩
+  · rfl
+  · unfold radix; split <;> simp_all
+  · have hb := key b (h b (by simp))
     unfold radix
     split <;> simp_all
 
 /-- `u128::from_str_radix` on a non-empty digit string is the digit fold -/
 theorem u128FromStrRadix_digits {r : Nat} (hr : r ≤ 16) {cs : List Char} {ds : List Nat}
-    (h : List.Forall₂ (DigitChar r) cs ds) (hne : ds ≠ []) :
+    (h : Digits r cs ds) (hne : ds ≠ []) :
     u128FromStrRadix cs r = foldDigits r 0 cs := by
   cases h with
   | nil => exact absurd rfl hne
@@ -212,7 +222,7 @@ theorem u128FromStrRadix_digits {r : Nat} (hr : r ≤ 16) {cs : List Char} {ds :
 /-- the accessor on a spelling reduces to `from_str_radix` on the bare digit characters -/
 theorem intValue_spelling {r : Radix} {ds : List Nat} {text : List Char}
     (h : Spelling r ds text) :
-    ∃ cs, List.Forall₂ (DigitChar r.toNat) cs ds ∧ intValue text = u128FromStrRadix cs r.toNat := by
+    ∃ cs, Digits r.toNat cs ds ∧ intValue text = u128FromStrRadix cs r.toNat := by
   obtain ⟨pre, body, hpre, rfl, hb⟩ := h
   refine ⟨_, hb, ?_⟩
   have hchars := body_chars hb
@@ -226,8 +236,8 @@ theorem intValue_spelling {r : Radix} {ds : List Nat} {text : List Char}
   | decimal =>
     simp only [prefixes, List.mem_singleton] at hpre
     subst hpre
-    have hr : radix ([] ++ body) = .decimal := radix_decimal_body hchars
-    simp only [intValue, intSplitIntoParts, hr, Radix.prefixLen, List.nil_append, List.drop_zero,
+    have hr : radix body = .decimal := radix_decimal_body hchars
+    simp only [intValue, intSplitIntoParts, List.nil_append, hr, Radix.prefixLen, List.drop_zero,
       hsplit]
   | binary =>
     simp only [prefixes, List.mem_cons, List.not_mem_nil, or_false] at hpre
@@ -262,5 +272,347 @@ theorem overflow_none (r : Radix) (ds : List Nat) (text : List Char)
   obtain ⟨cs, hcs, hv⟩ := intValue_spelling h
   rw [hv, u128FromStrRadix_digits (radix_toNat_le r).1 hcs hne]
   exact foldDigits_overflow (radix_toNat_le r).1 cs ds 0 hcs (by decide) hge
+
+/-! ### canonical digits (`Nat.toDigits`, what `toString`/`Nat.repr` print in radix 10) -/
+
+/-- the canonical digit string of `n` is a digit string of value `n` -/
+theorem toDigits_digits {r : Nat} (hr1 : 1 < r) (hr : r ≤ 16) (n : Nat) :
+    ∃ ds, ds ≠ [] ∧ Digits r (Nat.toDigits r n) ds ∧ ∀ acc, ofDigitsAcc r acc ds = acc * r ^ ds.length + n := by
+  induction n using Nat.strongRecOn with
+  | _ n ih =>
+    rw [Nat.toDigits_eq_if hr1]
+    split
+    · refine ⟨[n], by simp, .cons ⟨‹_›, .inl rfl⟩ .nil, ?_⟩
+      intro acc; simp [ofDigitsAcc]
+    · have hlt : n / r < n := Nat.div_lt_self (by omega) hr1
+      obtain ⟨ds, hne, hd, hv⟩ := ih _ hlt
+      refine ⟨ds ++ [n % r], by simp, ?_, ?_⟩
+      · have hmod : n % r < r := Nat.mod_lt _ (by omega)
+        exact hd.append (.cons ⟨hmod, .inl rfl⟩ .nil)
+      · intro acc
+        rw [ofDigitsAcc_append, hv]
+        simp only [ofDigitsAcc, List.length_append, List.length_cons, List.length_nil, Nat.pow_succ]
+        have := Nat.div_add_mod n r
+        rw [Nat.add_mul, Nat.mul_assoc, Nat.add_assoc, Nat.mul_comm (n / r) r, this]
+
+theorem digits_map_upper {r : Nat} {cs : List Char} {ds : List Nat} (h : Digits r cs ds) :
+    Digits r (cs.map Char.toUpper) ds := by
+  induction h with
+  | nil => exact .nil
+  | @cons c d cs ds hc _ ih =>
+    refine .cons ⟨hc.1, ?_⟩ ih
+    rcases hc.2 with rfl | rfl
+    · exact .inr rfl
+    · right
+      have : ∀ d, d < 16 → (Nat.digitChar d).toUpper.toUpper = (Nat.digitChar d).toUpper := by decide
+      by_cases h16 : d < 16
+      · exact this _ h16
+      · have : ∀ d, ¬ d < 16 → Nat.digitChar d = '*' := by
+          intro d hd; unfold Nat.digitChar; repeat (rw [if_neg (by omega)])
+        rw [this _ h16]; rfl
+
+/-- **C10, integers, canonical form.**  For every `n < 2^128`, every radix, either prefix case:
+any text whose body, with the underscores removed, is the canonical digit string of `n`
+(`Nat.toDigits r n`; for `r = 10` this is `toString n`) or its upper-case form, is read as `n`. -/
+theorem int_value_exact_canonical (r : Radix) (n : Nat) (hn : n < 2 ^ 128) (pre body : List Char)
+    (hpre : pre ∈ prefixes r)
+    (hbody : body.filter (· ≠ '_') = Nat.toDigits r.toNat n ∨
+      body.filter (· ≠ '_') = (Nat.toDigits r.toNat n).map Char.toUpper) :
+    intValue (pre ++ body) = some n := by
+  have hr1 : 1 < r.toNat := by cases r <;> decide
+  obtain ⟨ds, hne, hd, hv⟩ := toDigits_digits hr1 (radix_toNat_le r).1 n
+  have hval : ofDigits r.toNat ds = n := by simp [ofDigits, hv]
+  have hsp : Spelling r ds (pre ++ body) := by
+    refine ⟨pre, body, hpre, rfl, ?_⟩
+    rcases hbody with h | h <;> rw [h]
+    · exact hd
+    · exact digits_map_upper hd
+  have := int_value_exact r ds _ hsp hne (by rw [hval]; exact hn)
+  rw [this, hval]
+
+/-- the plain decimal spelling `toString n` -/
+theorem int_value_toString (n : Nat) (hn : n < 2 ^ 128) : intValueS (toString n) = some n := by
+  have : (toString n).toList = Nat.toDigits 10 n := by
+    rw [Nat.toString_eq_repr, Nat.toList_repr]
+  unfold intValueS
+  rw [this]
+  have h := int_value_exact_canonical .decimal n hn [] (Nat.toDigits 10 n) (by simp [prefixes])
+    (.inl ?_)
+  · simpa using h
+  · apply List.filter_eq_self.mpr
+    intro c hc
+    have := Nat.underscore_not_in_toDigits (n := n)
+    simp only [ne_eq, decide_not, Bool.not_eq_eq_eq_not, Bool.not_true, decide_eq_false_iff_not]
+    rintro rfl; exact this hc
+
+/-- removing underscores undoes inserting them: the `filter (· ≠ '_')` lemma -/
+theorem filter_underscores_insert (cs : List Char) (h : '_' ∉ cs) (us : List Char)
+    (hus : ∀ c ∈ us, c = '_') (a b : List Char) (hcs : cs = a ++ b) :
+    (a ++ us ++ b).filter (· ≠ '_') = cs := by
+  subst hcs
+  have hu : us.filter (· ≠ '_') = [] := by
+    apply List.filter_eq_nil_iff.mpr
+    intro c hc; simp [hus c hc]
+  have hk : ∀ l : List Char, '_' ∉ l → l.filter (· ≠ '_') = l := by
+    intro l hl
+    apply List.filter_eq_self.mpr
+    intro c hc
+    simp only [ne_eq, decide_not, Bool.not_eq_eq_eq_not, Bool.not_true, decide_eq_false_iff_not]
+    rintro rfl; exact hl hc
+  simp only [List.filter_append, hu, List.append_nil]
+  rw [hk a (fun h' => h (List.mem_append_left _ h')), hk b (fun h' => h (List.mem_append_right _ h'))]
+
+/-- an `e`/`E` inside a hexadecimal literal is the digit 14, never an exponent or a suffix -/
+theorem hex_e_is_digit (hi lo : List Nat) (a b : List Char) (e : Char) (he : e = 'e' ∨ e = 'E')
+    (pre : List Char) (hpre : pre ∈ prefixes .hexadecimal)
+    (ha : Digits 16 (a.filter (· ≠ '_')) hi) (hb : Digits 16 (b.filter (· ≠ '_')) lo)
+    (hlt : ofDigits 16 (hi ++ 14 :: lo) < 2 ^ 128) :
+    intValue (pre ++ (a ++ e :: b)) = some (ofDigits 16 (hi ++ 14 :: lo)) := by
+  have hsp : Spelling .hexadecimal (hi ++ 14 :: lo) (pre ++ (a ++ e :: b)) := by
+    refine ⟨pre, _, hpre, rfl, ?_⟩
+    have he' : (e != '_') = true := by rcases he with rfl | rfl <;> decide
+    have : (a ++ e :: b).filter (· ≠ '_') = a.filter (· ≠ '_') ++ e :: b.filter (· ≠ '_') := by
+      simp only [List.filter_append, List.filter_cons]
+      rcases he with rfl | rfl <;> simp
+    rw [this]
+    refine ha.append (.cons ⟨by decide, ?_⟩ hb)
+    rcases he with rfl | rfl
+    · exact .inl (by decide)
+    · exact .inr (by decide)
+  exact int_value_exact .hexadecimal _ _ hsp (by simp) hlt
+
+/-! ### bit strings -/
+
+/-- `BitString::str` strips exactly the two quotes (either quote character) -/
+theorem bitstring_exact (q : Char) (hq : q = '"' ∨ q = '\'') (body : List Char) :
+    quotedContents (q :: body ++ [q]) = some body := by
+  have hne : (body ++ [q]).isEmpty = false := by cases body <;> rfl
+  have hq' : ¬ (q ≠ '"' ∧ q ≠ '\'') := by rcases hq with rfl | rfl <;> decide
+  simp only [quotedContents, List.cons_append, hne, Bool.false_eq_true, if_false, hq',
+    List.getLast?_append, List.getLast?_singleton, Option.some_or, ne_eq, not_true_eq_false,
+    List.dropLast_concat]
+
+/-- everything else is `None`: no quotes, different quotes, a lone quote -/
+theorem bitstring_none_cases :
+    quotedContents [] = none ∧ quotedContents ['"'] = none ∧
+    quotedContents ['"', '0', '\''] = none ∧ quotedContents ['0', '1'] = none := by decide
+
+/-- `BitStringLiteral::to_texpr`: a const bit register whose width is the number of `0`/`1`
+characters; the value is kept verbatim (underscores stay in the string, do not count) -/
+theorem bitstring_width (s : String) :
+    Sema.bitStringLiteralToTexpr s =
+      .mk (.literal (.bitString s))
+        (.bitArray (.d1 ((s.toList.filter (fun c => c == '0' || c == '1')).length)) true) := rfl
+
+/-! ### time units -/
+
+/-- the six unit spellings (and `im`); anything else is `None` -/
+theorem timing_unit_exact :
+    timeUnit (some "s") = some .second ∧ timeUnit (some "ms") = some .milliSecond ∧
+    timeUnit (some "us") = some .microSecond ∧ timeUnit (some "µs") = some .microSecond ∧
+    timeUnit (some "ns") = some .nanoSecond ∧ timeUnit (some "dt") = some .cycle ∧
+    timeUnit (some "im") = some .imaginary ∧ timeUnit none = none := by
+  refine ⟨?_, ?_, ?_, ?_, ?_, ?_, ?_, ?_⟩ <;> rfl
+
+theorem timing_unit_other (s : String)
+    (h : s ∉ ["s", "ms", "us", "µs", "ns", "dt", "im"]) : timeUnit (some s) = none := by
+  simp only [List.mem_cons, List.not_mem_nil, or_false, not_or] at h
+  unfold timeUnit
+  split <;> simp_all
+
+/-! ### floats: the text handed to `str::parse::<f64>` -/
+
+def NoAlpha (cs : List Char) : Prop := ∀ c ∈ cs, isAsciiAlphabetic c = false
+
+theorem splitAtFirst_append_hit (p : Char → Bool) (a : List Char) (c : Char) (b : List Char)
+    (ha : ∀ x ∈ a, p x = false) (hc : p c = true) : splitAtFirst p (a ++ c :: b) = (a, c :: b) := by
+  induction a with
+  | nil => simp [splitAtFirst, hc]
+  | cons x xs ih =>
+    simp only [List.cons_append, splitAtFirst, ha x (List.mem_cons_self ..), Bool.false_eq_true,
+      if_false]
+    rw [ih (fun y hy => ha y (List.mem_cons_of_mem _ hy))]
+
+/-- **C10, floats.**  A float literal is `mantissa [e|E exponent] [suffix]` where mantissa and
+exponent contain no letters (digits, `.`, `_`, sign) and the suffix, if any, starts with a letter
+(not `e`/`E` when there is no exponent part).  `split_into_parts` cuts exactly before the suffix,
+and the text handed to the `f64` parser is the rest minus underscores. -/
+theorem float_text_clean (mant expo suffix : List Char) (hm : NoAlpha mant)
+    (hexpo : expo = [] ∨ ∃ e ex, (e = 'e' ∨ e = 'E') ∧ NoAlpha ex ∧ expo = e :: ex)
+    (hsuf : suffix = [] ∨ ∃ s ss, isAsciiAlphabetic s = true ∧ suffix = s :: ss ∧
+      (expo = [] → s ≠ 'e' ∧ s ≠ 'E')) :
+    floatSplitIntoParts (mant ++ expo ++ suffix) = (mant ++ expo, suffix) ∧
+    floatCleanText (mant ++ expo ++ suffix) = (mant ++ expo).filter (· ≠ '_') := by
+  have main : floatSplitIntoParts (mant ++ expo ++ suffix) = (mant ++ expo, suffix) := by
+    rcases hexpo with rfl | ⟨e, ex, he, hex, rfl⟩
+    · rcases hsuf with rfl | ⟨s, ss, hs, rfl, hne⟩
+      · simp only [List.append_nil, floatSplitIntoParts, splitAtFirst_none _ _ hm]
+      · obtain ⟨h1, h2⟩ := hne rfl
+        simp only [List.append_nil, floatSplitIntoParts, splitAtFirst_append_hit _ _ _ _ hm hs]
+        simp [h1, h2]
+    · have hea : isAsciiAlphabetic e = true := by rcases he with rfl | rfl <;> decide
+      have hee : (e == 'e' || e == 'E') = true := by rcases he with rfl | rfl <;> decide
+      rcases hsuf with rfl | ⟨s, ss, hs, rfl, -⟩
+      · simp only [List.append_nil, floatSplitIntoParts, splitAtFirst_append_hit _ _ _ _ hm hea,
+          hee, if_true, splitAtFirst_none _ _ hex]
+      · simp only [List.append_assoc, List.cons_append, floatSplitIntoParts,
+          splitAtFirst_append_hit _ _ _ _ hm hea, hee, if_true,
+          splitAtFirst_append_hit _ _ _ _ hex hs]
+  exact ⟨main, by simp only [floatCleanText, main]⟩
+
+/-! ### the literal paths of the semantic pass -/
+
+open Oq3.Sema in
+/-- an integer literal becomes `Int{value, sign: true}` of type `int[128] const` -/
+theorem int_literal_exact (sp : Ast.Span) (text : String) (v : Option Nat) (n : Nat)
+    (h : intValueS text = some n) (c : Ctx) :
+    (literalToAsgTexpr ⟨sp, .intNumber text v⟩).run c = .ok (some (intLiteralToTexpr n true), c) := by
+  simp only [literalToAsgTexpr, intNumberValue, h, unwrap]
+  rfl
+
+open Oq3.Sema in
+/-- `true`/`false` keep their truth value -/
+theorem bool_exact (sp : Ast.Span) (b : Bool) (c : Ctx) :
+    (literalToAsgTexpr ⟨sp, .bool b⟩).run c = .ok (some (.mk (.literal (.bool b)) (.boolT true)), c) :=
+  rfl
+
+open Oq3.Sema in
+/-- a float literal carries the string of the value the `f64` parser returned -/
+theorem float_literal_exact (sp : Ast.Span) (text fmt : String) (c : Ctx) :
+    (literalToAsgTexpr ⟨sp, .floatNumber text (some fmt)⟩).run c =
+      .ok (some (.mk (.literal (.float fmt)) (.float (some 64) true)), c) := rfl
+
+open Oq3.Sema in
+/-- a bit-string literal keeps its characters verbatim; its width is the number of `0`/`1` -/
+theorem bitstring_literal_exact (sp : Ast.Span) (q : Char) (hq : q = '"' ∨ q = '\'')
+    (body : List Char) (str : Option String) (c : Ctx) :
+    (literalToAsgTexpr ⟨sp, .bitString (String.ofList (q :: body ++ [q])) str⟩).run c =
+      .ok (some (.mk (.literal (.bitString (String.ofList body)))
+        (.bitArray (.d1 ((body.filter (fun c => c == '0' || c == '1')).length)) true)), c) := by
+  have : bitStringStr (String.ofList (q :: body ++ [q])) = some (String.ofList body) := by
+    simp only [bitStringStr, String.toList_ofList, bitstring_exact q hq body, Option.map_some]
+  simp only [literalToAsgTexpr, this, bitStringLiteralToTexpr, String.toList_ofList]
+  rfl
+
+open Oq3.Sema in
+/-- **C10, minus folding (integers).**  A minus sign directly applied to an integer literal yields
+the literal with the same magnitude and the sign flag `false` — no `UnaryExpr` node -/
+theorem neg_literal_folded_int (fuel : Nat) (sp sp2 : Ast.Span) (text : String) (v : Option Nat)
+    (n : Nat) (h : intValueS text = some n) (c : Ctx) :
+    (exprToAsgTexpr (fuel + 1)
+        (some (.prefixExpr sp (some .neg) (some (.literal ⟨sp2, .intNumber text v⟩))))).run c =
+      .ok (some (.mk (.literal (.int n false)) (.int (some 128) true)), c) := by
+  simp only [exprToAsgTexpr, pure_bind, negativeIntToAsgType, intNumberValue, h, unwrap]
+  rfl
+
+open Oq3.Sema in
+/-- **C10, minus folding (floats).**  The literal's string is the value's string prefixed by `-` -/
+theorem neg_literal_folded_float (fuel : Nat) (sp sp2 : Ast.Span) (text fmt : String) (c : Ctx) :
+    (exprToAsgTexpr (fuel + 1)
+        (some (.prefixExpr sp (some .neg) (some (.literal ⟨sp2, .floatNumber text (some fmt)⟩))))).run c =
+      .ok (some (.mk (.literal (.float ("-" ++ fmt))) (.float (some 64) true)), c) := by
+  simp only [exprToAsgTexpr, pure_bind, negativeFloatNumberToAsgType, unwrap]
+  rfl
+
+open Oq3.Sema in
+/-- minus folding for imaginary literals -/
+theorem neg_literal_folded_imaginary_int (fuel : Nat) (sp sp2 sp3 : Ast.Span) (it : Option String)
+    (text : String) (v : Option Nat) (n : Nat) (h : intValueS text = some n) (c : Ctx) :
+    (exprToAsgTexpr (fuel + 1)
+        (some (.prefixExpr sp (some .neg) (some (.timingLiteral sp2 (some .imaginary) it
+          (some ⟨sp3, .intNumber text v⟩)))))).run c =
+      .ok (some (.mk (.literal (.imaginaryInt n false)) (.int (some 64) true)), c) := by
+  simp only [exprToAsgTexpr, pure_bind, negativeIntToAsgType, intNumberValue, h, unwrap]
+  rfl
+
+open Oq3.Sema in
+theorem neg_literal_folded_imaginary_float (fuel : Nat) (sp sp2 sp3 : Ast.Span) (it : Option String)
+    (text fmt : String) (c : Ctx) :
+    (exprToAsgTexpr (fuel + 1)
+        (some (.prefixExpr sp (some .neg) (some (.timingLiteral sp2 (some .imaginary) it
+          (some ⟨sp3, .floatNumber text (some fmt)⟩)))))).run c =
+      .ok (some (.mk (.literal (.imaginaryFloat ("-" ++ fmt))) (.complex (some 64) true)), c) := by
+  simp only [exprToAsgTexpr, pure_bind, negativeFloatNumberToAsgType, unwrap]
+  rfl
+
+open Oq3.Sema in
+/-- **C10, durations.**  A timing literal keeps value and unit (the AST is the same with and without
+a space between number and unit: the unit is a separate token either way) -/
+theorem timing_int_exact (fuel : Nat) (sp sp2 : Ast.Span) (it : Option String) (u : TokenExt.TimeUnit)
+    (au : Sema.TimeUnit) (hu : timeUnitToAsg u = some au)
+    (text : String) (v : Option Nat) (n : Nat) (h : intValueS text = some n) (c : Ctx) :
+    (exprToAsgTexpr (fuel + 1)
+        (some (.timingLiteral sp (some u) it (some ⟨sp2, .intNumber text v⟩)))).run c =
+      .ok (some (.mk (.literal (.timingIntLiteral n true au)) (.duration true)), c) := by
+  simp only [exprToAsgTexpr, pure_bind, intNumberValue, h, unwrap, hu]
+  rfl
+
+open Oq3.Sema in
+theorem timing_float_exact (fuel : Nat) (sp sp2 : Ast.Span) (it : Option String) (u : TokenExt.TimeUnit)
+    (au : Sema.TimeUnit) (hu : timeUnitToAsg u = some au) (text fmt : String) (c : Ctx) :
+    (exprToAsgTexpr (fuel + 1)
+        (some (.timingLiteral sp (some u) it (some ⟨sp2, .floatNumber text (some fmt)⟩)))).run c =
+      .ok (some (.mk (.literal (.timingFloatLiteral fmt true au)) (.duration true)), c) := by
+  simp only [exprToAsgTexpr, pure_bind, unwrap, hu]
+  rfl
+
+/-- the unit map is the identity on the five duration units -/
+theorem timeUnitToAsg_exact :
+    Sema.timeUnitToAsg .second = some .second ∧ Sema.timeUnitToAsg .milliSecond = some .milliSecond ∧
+    Sema.timeUnitToAsg .microSecond = some .microSecond ∧
+    Sema.timeUnitToAsg .nanoSecond = some .nanoSecond ∧ Sema.timeUnitToAsg .cycle = some .cycle ∧
+    Sema.timeUnitToAsg .imaginary = none := ⟨rfl, rfl, rfl, rfl, rfl, rfl⟩
+
+open Oq3.Sema in
+/-- imaginary literals keep their value -/
+theorem imaginary_int_exact (fuel : Nat) (sp sp2 : Ast.Span) (it : Option String)
+    (text : String) (v : Option Nat) (n : Nat) (h : intValueS text = some n) (c : Ctx) :
+    (exprToAsgTexpr (fuel + 1)
+        (some (.timingLiteral sp (some .imaginary) it (some ⟨sp2, .intNumber text v⟩)))).run c =
+      .ok (some (.mk (.literal (.imaginaryInt n true)) (.int (some 64) true)), c) := by
+  simp only [exprToAsgTexpr, pure_bind, intNumberValue, h, unwrap, timeUnitToAsg]
+  rfl
+
+open Oq3.Sema in
+theorem imaginary_float_exact (fuel : Nat) (sp sp2 : Ast.Span) (it : Option String)
+    (text fmt : String) (c : Ctx) :
+    (exprToAsgTexpr (fuel + 1)
+        (some (.timingLiteral sp (some .imaginary) it (some ⟨sp2, .floatNumber text (some fmt)⟩)))).run c =
+      .ok (some (.mk (.literal (.imaginaryFloat fmt)) (.complex (some 64) true)), c) := by
+  simp only [exprToAsgTexpr, pure_bind, unwrap, timeUnitToAsg]
+  rfl
+
+/-! ### accessor behaviour that contradicts the property text (witnesses) -/
+
+/-- `3ab` is ONE integer token (the lexer glues an identifier-like suffix on); the accessor drops
+the suffix and answers 3, and validation does not object: the program `int x = 3ab;` is accepted
+with value 3 -/
+theorem witness_suffix_accepted : intValueS "3ab" = some 3 ∧ intValueS "0x1fg" = some 31 := by
+  decide
+
+/-- the lexer knows only the lower-case prefixes: `0B101` is the token `0` with suffix `B101`;
+the accessor then re-reads the whole token text and finds a binary prefix: value 5.  (Consistent
+with "either prefix case" only by accident: `0B` + underscore-only or no digits behaves differently
+from `0b`.) -/
+theorem witness_upper_prefix_is_suffix_token :
+    intValueS "0B101" = some 5 ∧ intValueS "0X1F" = some 31 ∧ intValueS "0O17" = some 15 := by
+  decide
+
+/-- `0b12` is one binary integer token (the lexer eats decimal digits after `0b`); the accessor
+answers `None`, and the semantic pass unwraps it -/
+theorem witness_bad_digit_none : intValueS "0b12" = none ∧ intValueS "0o8" = none := by decide
+
+/-- the largest value and the first overflow -/
+theorem witness_u128_edge :
+    intValueS "340282366920938463463374607431768211455" = some (2 ^ 128 - 1) ∧
+    intValueS "340282366920938463463374607431768211456" = none ∧
+    intValueS "0xffff_ffff_ffff_ffff_ffff_ffff_ffff_ffff" = some (2 ^ 128 - 1) ∧
+    intValueS "0x1_0000_0000_0000_0000_0000_0000_0000_0000" = none := by decide +kernel
+
+/-- an imaginary INTEGER literal is typed `int[64] const`, not complex (`2.0im` is
+`complex[float[64]] const`): the source of `float f = 2im;` being accepted (F18) -/
+theorem witness_imaginary_int_type (n : Nat) (s : Bool) :
+    (Sema.intLiteralToImaginaryTexpr n s).getType = .int (some 64) true ∧
+    (Sema.floatLiteralToImaginaryTexpr "2").getType = .complex (some 64) true := ⟨rfl, rfl⟩
 
 end Oq3.Props.C10
